@@ -39,6 +39,19 @@ T = {
  "C17-B": ("C17","backpatch overwrites the debug-map entry with the closing word's token","a run-time error raised by a backpatched control instruction itself (if on empty stack, do with bad bounds, of without selector)"),
  "C18-A": ("C18","word-at-a-time realignment of unaligned byte strings reads the carry from the wrong byte","encoder input with start%8 != 0 and length >= 8 bytes"),
  "C18-B": ("C18","zero85 pads its input to a multiple of 4 bytes","zero85 of a byte length that is not a multiple of 4"),
+ # round 2 (the sub-agent was told what A and B were and asked for other mechanisms, preferably multi-step)
+ "C02-C": ("C02","a store of a value that compares equal to the old one (other tags / other bit-string window) is left out of the reverse log","recording on; a variable overwritten by an equal-but-differently-tagged value (or the cursor variables by an equal bit-string with another window); step back over the store"),
+ "C02-D": ("C02","undoing a loop advance addresses the outermost loop of the context instead of the innermost","nested do/foreach loops; a backward step over an inner `loop`; resume forward from inside the nest"),
+ "C03-C": ("C03","detach's sole-owner fast path extended to byte-aligned starts > 0 moves len/8 bytes and loses the trailing partial byte","a run-time built bit-string that is the only holder of its buffer, starts at a byte boundary > 0, has a length that is not a multiple of 8, and is then appended to / inverted - while or after a clone shares it"),
+ "C03-D": ("C03","hand-written State::clone_from truncates dict/code/sources for an 'ancestor' snapshot instead of copying (REPL trial reset uses it)","snapshot; then first call of a late word or re-definition of a constant on the live copy; then restore with clone_from"),
+ "C10-C": ("C10","rejected-build roll-back pops one lexer instead of truncating the input stack","failing token inside an included file or inside text injected by ~) while the rejected source has trailing text"),
+ "C10-D": ("C10","compile_file / eval_file no longer abandon a run that failed at run time","compile ok + run fails; then compile_file(..) + run"),
+ "C11-C": ("C11","is_building_fun looks at the whole flow stack instead of the enclosing context's part","`: f #( a #( b #) c #) ;` - a nested block inside a block inside a definition, outer block already holding a value"),
+ "C11-D": ("C11","variable reads are refused when a block is compiled, no longer when it runs","a meta block calling a word defined outside it (or a late word) that loads a variable"),
+ "C14-C": ("C14","`over` pushes with a raw push while recording and so skips the stack limit","stack limit + recording on + `over` on an exactly full stack"),
+ "C14-D": ("C14","a failed instruction is refunded on the meter, including the limit failure itself","exhaust the instruction limit, get the error, then submit more programs without raising the limit"),
+ "C15-C": ("C15","under recording the Resolve instruction of a late word is put back after each execution","recording on; a late word called once; the name re-defined in a later source; the caller run again"),
+ "C15-D": ("C15","under recording a store of a value equal to the current one is skipped","recording on; a variable re-assigned a value that differs only in tags (`x ^hex ! x`)"),
 }
 res = collections.defaultdict(dict)
 p=os.path.join(ROOT,'RESULTS.tsv')
@@ -52,7 +65,7 @@ for s,(prop,what,needs) in T.items():
     caught=sorted(k for k,v in res[s].items() if v=='1')
     meta={
       "seed": s, "breaks_property": prop, "change": what, "needs_to_manifest": needs,
-      "origin": "written by an independent sub-agent that was given only the property text and its own scratch worktree of /repo (nothing from /verif)",
+      "origin": "written by an independent sub-agent that was given only the property text and its own scratch worktree of /repo (nothing from /verif)" + ("; round 2: additionally told the one-line descriptions of seeds A and B of this property, to get other mechanisms" if s.endswith(("-C","-D")) else ""),
       "confirmed_by": "tools/seed_verify.sh: patch applies to /repo HEAD in a scratch worktree; `cargo test --workspace --offline` = 144 passed with it; demo.rs (tests/demo.rs) fails with it and passes without it",
       "checks_run": "tools/seed_matrix.sh: every quick check (VERIF_SEED=1) in an isolated copy with the patch applied" if res[s] else "tools/seed_run.sh (own property's quick check)",
       "caught_by_quick_checks": caught,
